@@ -13,10 +13,13 @@ import (
 	"fmt"
 	"math/rand"
 	"os"
+	"path/filepath"
 	"strconv"
 	"strings"
+	"time"
 
 	"github.com/KevoDB/kevo/pkg/engine"
+	"github.com/KevoDB/kevo/pkg/verifhook"
 	"github.com/KevoDB/kevo/pkg/wal"
 )
 
@@ -44,6 +47,19 @@ func parseBops(c *Case, i int, n int) []bop {
 }
 
 func runC01(c *Case, out func(string)) {
+	if hdrVal(c.Hdr, "mode", "seq") == "sched" {
+		// directed-schedule cases are decided by the oracle only: observations become notes
+		raw := out
+		out = func(s string) {
+			f := strings.SplitN(s, " ", 2)[0]
+			switch f {
+			case "ORACLE", "META", "KF", "NOTE", "IMPL-ERROR", "IMPL-PANIC":
+				raw(s)
+			default:
+				raw("NOTE " + s)
+			}
+		}
+	}
 	dir := tmpDir("c01-")
 	defer os.RemoveAll(dir)
 	memsize, _ := strconv.ParseInt(hdrVal(c.Hdr, "memsize", "4096"), 10, 64)
@@ -183,6 +199,62 @@ func runC01(c *Case, out func(string)) {
 					checkSeq("commit")
 				}
 			}
+		case "flushgate":
+			// hold an explicit flush at a verifhook site and issue the NEXT line's put while
+			// it waits there (a legal schedule: flush holds only the flush lock)
+			site := l[1]
+			i++
+			nl := c.Lines[i]
+			k, v := tok(nl[1]), tok(nl[2])
+			verifhook.Hold(site)
+			fdone := make(chan error, 1)
+			go func() { fdone <- e.FlushImMemTables() }()
+			reached := false
+			for t := 0; t < 400; t++ {
+				if verifhook.Waiting(site) > 0 {
+					reached = true
+					break
+				}
+				select {
+				case <-fdone:
+					t = 1000
+					fdone <- nil
+				default:
+					time.Sleep(time.Millisecond)
+				}
+			}
+			wdone := make(chan error, 1)
+			go func() { wdone <- e.Put(k, v) }()
+			var werr error
+			finished := false
+			select {
+			case werr = <-wdone:
+				finished = true
+			case <-time.After(120 * time.Millisecond):
+			}
+			verifhook.Release(site)
+			if !finished {
+				select {
+				case werr = <-wdone:
+				case <-time.After(30 * time.Second):
+					fail("put issued during a flush held at " + site + " did not return within 30 s")
+					return
+				}
+			}
+			select {
+			case <-fdone:
+			case <-time.After(30 * time.Second):
+				fail("flush held at " + site + " did not finish within 30 s after release")
+				return
+			}
+			flushedOnce = true
+			if werr != nil {
+				out(fmt.Sprintf("W err:%s (during flush at %s, reached=%v)", werrShort(werr), site, reached))
+			} else {
+				apply([]bop{{k: k, v: v}})
+				out(fmt.Sprintf("W ok last=%s (during flush at %s, reached=%v)", num(lastSeq(e)), site, reached))
+				checkSeq("put during flush at " + site)
+			}
 		case "flush":
 			if err := e.FlushImMemTables(); err != nil {
 				out("IMPL-ERROR flush " + err.Error())
@@ -221,6 +293,20 @@ func runC01(c *Case, out func(string)) {
 		}
 	}
 	out("N " + num(e.VerifStorage().VerifNextSequence()))
+	if hdrVal(c.Hdr, "mode", "seq") == "sched" {
+		// C08 on the log itself: in file order the sequence numbers never decrease, and two
+		// entries share a number only inside one batch (here: no batches in sched programs)
+		var prev uint64
+		first := true
+		cfgDir := filepath.Join(dir, "wal")
+		wal.ReplayWALDir(cfgDir, func(en *wal.Entry) error {
+			if !first && en.SequenceNumber <= prev {
+				fail(fmt.Sprintf("C08: log holds sequence number %d after %d (two writes share a number or the order is broken)", en.SequenceNumber, prev))
+			}
+			prev, first = en.SequenceNumber, false
+			return nil
+		})
+	}
 	// final sweep of the oracle over every key ever written
 	for k, want := range ref {
 		v, err := e.Get([]byte(k))
@@ -274,7 +360,13 @@ func genVal(r *rand.Rand) string {
 	case 2:
 		return fmt.Sprintf("@%d:%d", 50+r.Intn(300), r.Intn(1<<20))
 	default:
-		return fmt.Sprintf("@%d:%d", []int{32700, 32768, 40000, 70000}[r.Intn(4)], r.Intn(1<<20))
+		// sizes aimed at the log record format (see bigEntry in c09.go): a value whose
+		// fragments end exactly at / one byte around a record boundary, or just any big one
+		_, vl := bigEntry(r, false)
+		if vl > 140000 {
+			vl = 70000
+		}
+		return lenTok(r, vl)
 	}
 }
 
@@ -339,9 +431,36 @@ func genC01(w *bufio.Writer, seed int64, n int, tier string) {
 }
 
 // C08 programs weigh rotation (flush) and reopen more heavily
+var schedSites = []string{"rotate.marked", "rotate.new_wal", "rotate.swapped", "rotate.closed", "flush.before_finish", "flush.sst_written", "flush.published"}
+
+func genSched(w *bufio.Writer, r *rand.Rand, id string) {
+	fmt.Fprintf(w, "case %s memsize=%d maxmem=1000 mode=sched\n", id, []int{200, 100000}[r.Intn(2)])
+	nops := 6 + r.Intn(14)
+	uniq := 0
+	val := func() string { uniq++; return mkTok([]byte(fmt.Sprintf("u%04d", uniq))) }
+	fmt.Fprintf(w, "put %s %s\n", mkTok(genKey(r, 4)), val())
+	for i := 0; i < nops; i++ {
+		switch pick(r, 6, 1, 3, 1) {
+		case 0:
+			fmt.Fprintf(w, "put %s %s\n", mkTok(genKey(r, 4)), val())
+		case 1:
+			fmt.Fprintf(w, "del %s\n", mkTok(genKey(r, 4)))
+		case 2:
+			fmt.Fprintf(w, "flushgate %s\nput %s %s\n", schedSites[r.Intn(len(schedSites))], mkTok(genKey(r, 4)), val())
+		case 3:
+			fmt.Fprintf(w, "get %s\n", mkTok(genKey(r, 4)))
+		}
+	}
+	fmt.Fprintf(w, "put %s %s\nend\n", mkTok(genKey(r, 4)), val())
+}
+
 func genC08(w *bufio.Writer, seed int64, n int, tier string) {
 	r := rand.New(rand.NewSource(seed*15485863 + 8))
 	for ci := 0; ci < n; ci++ {
+		if ci%5 == 4 {
+			genSched(w, r, fmt.Sprintf("c08-%d-%d", seed, ci))
+			continue
+		}
 		genProgram(w, r, fmt.Sprintf("c08-%d-%d", seed, ci), 5+r.Intn(50), 5)
 	}
 }
